@@ -1028,19 +1028,28 @@ def run(ctx):
     if truncated and not nviol and not ctx.known_hits and not ctx.drifts:
         raise vlib.Inconclusive("programs left the model's path without any predicate failing: %s" % truncated[:3])
 
-    # binding self-test on the programs no predicate complained about
-    clean, names = [], []
+    # binding self-test on programs no predicate complained about
+    groups, order = {}, []
     for e in events:
-        if e.get("ev") == "Reset":
-            keep = None
-            continue
-        if keep is None:
-            keep = e["p"] not in verd.programs and len(names) < 40
-            if keep:
-                names.append(e["p"])
-                clean.append({"ev": "Reset"})
-        if keep:
-            clean.append(e)
+        if e.get("ev") == "Step":
+            if e["p"] not in groups:
+                groups[e["p"]] = []
+                order.append(e["p"])
+            groups[e["p"]].append(e)
+    ok_names = [p for p in order if p not in verd.programs]
+    want = {
+        "reps": lambda es: any(e["a"] == "Restart" and e["reps"] for e in es),
+        "rejected": lambda es: any(e["a"] == "PostConfig" and e["res"] != "ok" for e in es),
+        "accepted": lambda es: any(e["a"] == "PostConfig" and e["res"] == "ok" for e in es),
+    }
+    names = ok_names[:30]
+    for need in want.values():
+        if not any(need(groups[p]) for p in names):
+            names += [p for p in ok_names if need(groups[p])][:1]
+    clean = []
+    for p in names:
+        clean.append({"ev": "Reset"})
+        clean.extend(groups[p])
     selftest(ctx, clean)
     ctx.assumptions += [
         "single voter: the not-leader / proxy-to-leader branches of handlePostConfig are not exercised; posts are issued one after another",
@@ -1079,27 +1088,32 @@ def selftest(ctx, events):
             e["post"]["cfg"]["maxC"] += 5
             both("rejected_changed", t, "T_RejectedChangesNothing", "rejected-post-changed-state")
             break
-    # (c) a replica recorded without a ban the node has
+    # (c) a replica recorded without a ban the node has (or, if no recorded replica
+    #     carries a ban, with another revision)
     t = clone()
-    done = False
-    for e in t:
-        for rep in e.get("reps") or []:
-            if e.get("a") == "Restart" and rep["cfg"]["banned"]:
-                rep["cfg"]["banned"] = []
-                rep["mbanned"] = []
-                both("replica_lost_ban", t, "T_ReplicasSameConfig", "replica-config-differs")
-                done = True
-                break
-        if done:
-            break
+    reps = [(e, rep) for e in t for rep in (e.get("reps") or []) if e.get("a") == "Restart"]
+    withban = [x for x in reps if x[1]["cfg"]["banned"]]
+    if withban:
+        withban[0][1]["cfg"]["banned"] = []
+        withban[0][1]["mbanned"] = []
+        both("replica_lost_ban", t, "T_ReplicasSameConfig", "replica-config-differs")
+    elif reps:
+        reps[0][1]["rev"] += 1
+        both("replica_lost_ban", t, "T_ReplicasSameConfig", "replica-revision-differs")
     # (d) an accepted post dropped from the trace: the model must notice (drift or invariant)
     t = clone()
     for n, e in enumerate(t):
-        if e.get("a") == "PostConfig" and e["res"] == "ok" and n + 1 < len(t) and t[n + 1].get("ev") == "Step":
+        if e.get("a") == "PostConfig" and e["res"] == "ok" and e["body"] != "R" and e["post"]["cfg"] != e["pre"]["cfg"] \
+                and n + 1 < len(t) and t[n + 1].get("ev") == "Step" and t[n + 1]["a"] not in ("PostConfig", "Inject"):
             del t[n]
             r = validate(ctx, t, "tlc-selftest-drop")
             acc = rig_common.trace_accepted(r.out)
             out["dropped_event_detected"] = bool(r.invariant_violated) or bool(acc and acc[1] > 0)
+            if not out["dropped_event_detected"]:
+                ctx.note("selftest drop: removed %s; TLC tail: %s" % (json.dumps(slim(e), sort_keys=True)[:600], r.out[-600:]))
+                if os.environ.get("VERIF_C16_DUMP"):
+                    with open(os.path.join(os.environ["VERIF_C16_DUMP"], "selftest-drop.out"), "w") as fh:
+                        fh.write(json.dumps(slim(e)) + "\n" + r.out)
             break
     ctx.cov["binding_selftest"] = out
     if len(out) < 4 or not all(out.values()):
